@@ -24,9 +24,10 @@ TRUSTED_BASE = ['NumPy/LAPACK float64 eigenvalues; cvxpy with the installed coni
 ASSUMPTIONS = [
     'the deciding part is BOUNDED: both-sides threshold probes of the reported boundaries along random rays, batched inputs, and the ordering of boundary lengths / acceptance of inner-model states by outer tests on a few seeded states per dimension pair (SDP time)',
     'proved core: hf_interpolate_dm(rho, beta=b) has Gell-Mann norm exactly b (identity in symbolic rho and b, with the norm as a root symbol); get_ppt_boundary passes exactly the partial transpose (and the same norm) to get_density_matrix_boundary',
+    'proved core: get_density_matrix_boundary returns exactly the zero crossings of the extreme eigenvalue of the ray, GIVEN the eigenvalues (assumed contract of numpy.linalg.eigvalsh; LAPACK itself is exercised by the bounded probes)',
     'optimiser convergence is never assumed: inner models are evaluated at arbitrary parameter points',
 ]
-STUBS = ['numqi.entangle.ppt:get_density_matrix_boundary (recorder)']
+STUBS = ['numqi.entangle.ppt:get_density_matrix_boundary (recorder)', 'numpy.linalg.eigvalsh -> assumed contract (ascending symbolic eigenvalues of its argument)', 'the Hermiticity assertion of get_density_matrix_boundary (np.abs(.).max() < 1e-10) -> precondition']
 NUMPY_MODELS = ['linalg.norm']
 BOUNDED_RULE = ('random Hermitian directions and random density matrices in dims (2,2),(2,3),(3,3),(2,4): rho(beta_u*(1-1e-6)) PSD / PPT, rho(beta_u*(1+1e-6)) not; batched == per-item; interpolation distance; '
                 'beta_CHA <= beta_(k+1)-ext <= beta_k-ext, beta_k-ext+PPT <= beta_PPT <= beta_DM up to 1e-4; states of PureBosonicExt(k) at random parameters are accepted by is_ABk_symmetric_ext(k) and by the (k-1)-extension test; '
@@ -113,7 +114,82 @@ class PPTBoundaryPlumbing:
         return dict(rho=(x + x.conj().T) / 2, dims=dims)
 
 
-CONTRACTS = {'interp': Interp(), 'pptb': PPTBoundaryPlumbing()}
+class BoundaryFormula:
+    """get_density_matrix_boundary with numpy.linalg.eigvalsh replaced by its ASSUMED contract (ascending eigenvalues e_0 <= ... <= e_{N-1} of the
+    matrix it is given): the matrix handed to eigvalsh is the state itself, and the returned lengths are exactly the points where the ray
+    rho(beta) = I/N + beta (rho - I/N)/norm loses positivity: its i-th eigenvalue 1/N + beta (e_i - 1/N)/norm vanishes for i=0 at beta_u (i=N-1 at beta_l)
+    and is non-negative for every i there (QF_NRA, under the ordering of the eigenvalues and e_0 < 1/N < e_{N-1}, norm > 0)."""
+    prop = PROP; name = 'get_density_matrix_boundary.formula'; modules = [em, gm]
+    targets = ['numqi.entangle._misc:get_density_matrix_boundary']
+
+    def shape_label(self, d): return f'N={d}'
+
+    def inputs(self, d):
+        from .c05 import _herm_sym
+        ev = [sp.Symbol(f'e{i}', real=True) for i in range(d)]
+        return dict(rho=_herm_sym('r', d), ev=ev, nrm=sp.Symbol('nrm', positive=True))
+
+    def call(self, I):
+        rho = I['rho']; d = SS.arr(rho).shape[0]
+        if not isinstance(rho, SymArray):
+            bl, bu = em.get_density_matrix_boundary(rho)
+            return dict(arg=rho, bl=bl, bu=bu, native=True)
+        rec = []
+
+        def eigvalsh(a):
+            rec.append(a)
+            e = np.empty((SS.arr(a).shape[0], d), dtype=object); e[:] = I['ev']
+            return SymArray(e, np.float64, ALG)
+        import types
+        shim_np = em.np; real_linalg = shim_np.linalg
+
+        class L(types.ModuleType):
+            def __getattr__(s_, k): return getattr(real_linalg, k)
+        Lm = L('lin'); Lm.eigvalsh = eigvalsh
+        shim_np.__dict__['linalg'] = Lm
+        real_abs = shim_np.__dict__.get('abs')
+        shim_np.__dict__['abs'] = lambda x: (lambda z: type('P', (), dict(max=lambda s_: 0.0))())(x)      # the Hermiticity assertion of the function: a precondition (input Hermitian by construction)
+        try:
+            bl, bu = em.get_density_matrix_boundary(rho, dm_norm=I['nrm'])
+        finally:
+            shim_np.__dict__['linalg'] = real_linalg
+            if real_abs is None:
+                shim_np.__dict__.pop('abs', None)
+            else:
+                shim_np.__dict__['abs'] = real_abs
+        return dict(arg=SS.arr(rec[0]).reshape(d, d) if len(rec) == 1 else None, ncalls=len(rec), bl=bl, bu=bu, native=False)
+
+    def comparable(self, r): return []
+
+    def assume(self, I):
+        ev = I['ev']; d = len(ev)
+        return [('<=', ev[i], ev[i + 1]) for i in range(d - 1)] + [('<', ev[0], sp.Rational(1, d)), ('>', ev[-1], sp.Rational(1, d)), ('>', I['nrm'], 0)]
+
+    def post(self, I, r):
+        rho = SS.arr(I['rho']); d = rho.shape[0]
+        if r.get('native'):
+            w = np.linalg.eigvalsh(rho); nr = float(numqi.gellmann.dm_to_gellmann_norm(rho))
+            lam = lambda beta, i: 1 / d + beta * (w[i] - 1 / d) / nr
+            return [('smallest_eigenvalue_on_the_ray_vanishes_at_beta_u', np.array([lam(float(r['bu']), 0)]), np.array([0.0])),
+                    ('largest_branch_vanishes_at_beta_l', np.array([lam(float(r['bl']), d - 1)]), np.array([0.0]))]
+        ev = I['ev']; nr = I['nrm']
+        bu = r['bu'] if isinstance(r['bu'], sp.Basic) else SS.arr(r['bu']).ravel()[0]
+        bl = r['bl'] if isinstance(r['bl'], sp.Basic) else SS.arr(r['bl']).ravel()[0]
+        lam = lambda beta, i: sp.Rational(1, d) + beta * (ev[i] - sp.Rational(1, d)) / nr
+        cl = [('eigvalsh_called_once_on_the_state_itself', [np.array([r['ncalls']]), r['arg']], [np.array([1]), rho]),
+              ('smallest_eigenvalue_on_the_ray_vanishes_at_beta_u', sp.together(lam(bu, 0)), 0),
+              ('largest_branch_vanishes_at_beta_l', sp.together(lam(bl, d - 1)), 0),
+              ('beta_u_positive_beta_l_negative', np.array([bu, -bl], dtype=object), 0, '>')]
+        cl.append(('every_eigenvalue_on_the_ray_nonnegative_at_beta_u', np.array([sp.together(lam(bu, i)) for i in range(d)], dtype=object), 0, '>='))
+        cl.append(('every_eigenvalue_on_the_ray_nonnegative_at_beta_l', np.array([sp.together(lam(bl, i)) for i in range(d)], dtype=object), 0, '>='))
+        return cl
+
+    def sample(self, rng, d):
+        x = _rc(rng, d, d); rho = x @ x.conj().T; rho /= np.trace(rho).real
+        return dict(rho=rho, ev=None, nrm=None)
+
+
+CONTRACTS = {'interp': Interp(), 'pptb': PPTBoundaryPlumbing(), 'bform': BoundaryFormula()}
 
 
 def job_core(tier, rng):
@@ -122,6 +198,8 @@ def job_core(tier, rng):
         out += verify_identity(CONTRACTS['interp'], d, tier, rng, crosscheck=1)
     for dims in [(2, 2), (2, 3)]:
         out += verify_identity(CONTRACTS['pptb'], dims, tier, rng, crosscheck=0)
+    for d in (2, 3, 4) + ((6,) if tier != 'quick' else ()):
+        out += verify_identity(CONTRACTS['bform'], d, tier, rng, crosscheck=0)
     return out
 
 
